@@ -18,6 +18,7 @@ seen from the multi-object world invariants (`WorldInv`, `ArenaInv`; C05).
 -/
 import Woodpile.Proofs.EncWorldComp
 import Woodpile.Proofs.IovecGlue
+import Woodpile.Proofs.IovecWb
 
 namespace Woodpile.EncWorld
 open Woodpile.Hcobs Woodpile.Iovec Woodpile.Arena
@@ -210,12 +211,12 @@ theorem init_small (p : Params) : ∀ e ∈ (Enc.init p 0).2, EmitSmall 1 e := b
 
 /-- `P` is preserved by everything the encoder, its caller and its consumer do to the world: one
 small emit whose borrowed bytes lie in a known caller buffer, a fresh caller buffer, a drain. -/
-structure EncClosed (B : Nat) (P : World → Prop) : Prop where
+structure EncClosed (B : Nat) (P : World → List Backref → Prop) : Prop where
   emit : ∀ {w w' : World} {i : Nat} {toks toks' : List Backref} {e : Emit} {src : Slice},
-    SrcOk w src [e] → EmitSmall B e → applyEmit w i toks e src = some (w', toks') → P w → P w'
-  lend : ∀ (w : World) (d : List UInt8), P w → P (w.addExt d).1
-  consume : ∀ {w w' : World} {i k n : Nat}, w.consume i k = some (w', n) → P w → P w'
-  advance : ∀ {w w' : World} {i k n : Nat}, w.advance i k = some (w', n) → P w → P w'
+    SrcOk w src [e] → EmitSmall B e → applyEmit w i toks e src = some (w', toks') → P w toks → P w' toks'
+  lend : ∀ (w : World) (toks : List Backref) (d : List UInt8), P w toks → P (w.addExt d).1 toks
+  consume : ∀ {w w' : World} {toks : List Backref} {i k n : Nat}, w.consume i k = some (w', n) → P w toks → P w' toks
+  advance : ∀ {w w' : World} {toks : List Backref} {i k n : Nat}, w.advance i k = some (w', n) → P w toks → P w' toks
 
 theorem applyEmit_exts {w w' : World} {i : Nat} {toks toks' : List Backref} {e : Emit} {src : Slice}
     (h : applyEmit w i toks e src = some (w', toks')) : w'.exts = w.exts := by
@@ -255,15 +256,15 @@ theorem applyEmit_exts {w w' : World} {i : Nat} {toks toks' : List Backref} {e :
       · rfl
       · rfl
 
-theorem applyStep_closed {B : Nat} {P : World → Prop} (hc : EncClosed B P) (i : Nat) (src : Slice) :
+theorem applyStep_closed {B : Nat} {P : World → List Backref → Prop} (hc : EncClosed B P) (i : Nat) (src : Slice) :
     ∀ (es : List Emit) (w w' : World) (toks toks' : List Backref), SrcOk w src es →
-      (∀ e ∈ es, EmitSmall B e) → applyStep w i toks es src = some (w', toks') → P w → P w' := by
+      (∀ e ∈ es, EmitSmall B e) → applyStep w i toks es src = some (w', toks') → P w toks → P w' toks' := by
   intro es
   induction es with
   | nil =>
     intro w w' toks toks' _ _ h hP
     simp only [applyStep, Option.some.injEq, Prod.mk.injEq] at h
-    obtain ⟨rfl, _⟩ := h
+    obtain ⟨rfl, rfl⟩ := h
     exact hP
   | cons e t ih =>
     intro w w' toks toks' hsrc hsm h hP
@@ -273,7 +274,7 @@ theorem applyStep_closed {B : Nat} {P : World → Prop} (hc : EncClosed B P) (i 
     | some x =>
       obtain ⟨w1, toks1⟩ := x
       rw [h1] at h
-      have hP1 : P w1 := hc.emit (fun x hx => hsrc x (by simp only [List.mem_singleton] at hx; simp [hx]))
+      have hP1 : P w1 toks1 := hc.emit (fun x hx => hsrc x (by simp only [List.mem_singleton] at hx; simp [hx]))
         (hsm e (by simp)) h1 hP
       refine ih w1 w' toks1 toks' ?_ (fun x hx => hsm x (by simp [hx])) h hP1
       intro x hx hb bs hop
@@ -284,25 +285,25 @@ theorem limit_le_max (p : Params) (first : Bool) : Spec.limit p first ≤ max p.
   cases first <;> simp [Spec.limit] <;> omega
 
 /-- One `encode` / `encode_copy` call (the induction of `encFeed_sim`, carrying `P`). -/
-theorem encFeed_closed {B : Nat} {P : World → Prop} (hc : EncClosed B P) (p : Params) (hp : p.Valid)
+theorem encFeed_closed {B : Nat} {P : World → List Backref → Prop} (hc : EncClosed B P) (p : Params) (hp : p.Valid)
     (hB : max 1 (max p.maxInit p.maxSub) ≤ B) (i : Nat) (m : Method) (g : List UInt8) (base : Slice)
     (fuel : Nat) :
     ∀ (w : World) (v : Iov) (e : EncW) (q : Pipe) (σ : BS) (input : List UInt8) (pos : Nat),
     w.iov i = some v → SimV w v g e.toks q → Rel p e.st e.nid q.total σ → σ.Inv p → σ.Inv2 →
-    (m = .borrow → ∃ b, base.region = .ext b ∧ InBuf w b (base.off + pos) input) → P w →
-    ∀ w' e', encFeed p fuel w i e m base input pos = some (w', e') → P w' := by
+    (m = .borrow → ∃ b, base.region = .ext b ∧ InBuf w b (base.off + pos) input) → P w e.toks →
+    ∀ w' e', encFeed p fuel w i e m base input pos = some (w', e') → P w' e'.toks := by
   induction fuel with
   | zero =>
     intro w v e q σ input pos _ _ _ _ _ _ hP w' e' h
     simp only [encFeed_zero, Option.some.injEq, Prod.mk.injEq] at h
-    obtain ⟨rfl, _⟩ := h
+    obtain ⟨rfl, rfl⟩ := h
     exact hP
   | succ fuel ih =>
     intro w v e q σ input pos hv h hrel h1 h2 hbuf hP w' e' hfeed
     by_cases hne : input = []
     · subst hne
       simp only [encFeed_nil, Option.some.injEq, Prod.mk.injEq] at hfeed
-      obtain ⟨rfl, _⟩ := hfeed
+      obtain ⟨rfl, rfl⟩ := hfeed
       exact hP
     · have hok := once_opsOk p hrel q rfl m input
       have hsrc : SrcOk w { base with off := base.off + pos, len := base.len - pos }
@@ -319,7 +320,7 @@ theorem encFeed_closed {B : Nat} {P : World → Prop} (hc : EncClosed B P) (p : 
         have := hrel.max
         omega
       obtain ⟨w1, v1, toks1, g1, g2, g3, g4⟩ := applyStep_sim i g _ _ w v e.toks q hv h hok hsrc
-      have hP1 : P w1 := applyStep_closed hc i _ _ w w1 e.toks toks1 hsrc hsmall g1 hP
+      have hP1 : P w1 toks1 := applyStep_closed hc i _ _ w w1 e.toks toks1 hsrc hsmall g1 hP
       obtain ⟨hc', hrel'⟩ := consumeOnce_sim p hp e.st e.nid q.total σ m input hrel h1
       obtain ⟨hc0, hc1, hfold⟩ := onceA_eq_fold p σ input hne h1
       rw [← hc'] at hc0 hc1 hfold
@@ -341,9 +342,10 @@ theorem encFeed_closed {B : Nat} {P : World → Prop} (hc : EncClosed B P) (p : 
           rwa [Nat.add_assoc] at this) hP1 w' e' hfeed
 
 /-- One call. -/
-theorem encCall_closed {B : Nat} {P : World → Prop} (hc : EncClosed B P) (p : Params) (hp : p.Valid)
+theorem encCall_closed {B : Nat} {P : World → List Backref → Prop} (hc : EncClosed B P) (p : Params) (hp : p.Valid)
     (hB : max 1 (max p.maxInit p.maxSub) ≤ B) (i : Nat) (r r' : Run) (c : Call) (input : List UInt8)
-    (acc : List Emit) (hinv : RunInv p i r input acc) (hP : P r.w) (h : encCall p i r c = some r') : P r'.w := by
+    (acc : List Emit) (hinv : RunInv p i r input acc) (hP : P r.w r.e.toks) (h : encCall p i r c = some r') :
+    P r'.w r'.e.toks := by
   obtain ⟨w, e, g⟩ := r
   obtain ⟨v, q, evs, hv, hsim, hq, hev, hrel⟩ := hinv
   simp only at hv hsim hrel hP
@@ -360,7 +362,7 @@ theorem encCall_closed {B : Nat} {P : World → Prop} (hc : EncClosed B P) (p : 
       simp only [encCall, Option.map_eq_some_iff] at h
       obtain ⟨x, hx, rfl⟩ := h
       exact encFeed_closed hc p hp hB i .borrow g ⟨.ext w.exts.length, 0, d.length⟩ _ (w.addExt d).1 v e q _ d 0
-        hv (hsim.addExt d) hrel h1 h2 (fun _ => ⟨w.exts.length, rfl, InBuf.addExt w d⟩) (hc.lend w d hP) x.1 x.2 hx
+        hv (hsim.addExt d) hrel h1 h2 (fun _ => ⟨w.exts.length, rfl, InBuf.addExt w d⟩) (hc.lend w e.toks d hP) x.1 x.2 hx
   | consume k =>
     simp only [encCall, hv, Option.map_eq_some_iff] at h
     obtain ⟨x, hx, rfl⟩ := h
@@ -370,10 +372,10 @@ theorem encCall_closed {B : Nat} {P : World → Prop} (hc : EncClosed B P) (p : 
     obtain ⟨x, hx, rfl⟩ := h
     exact hc.advance hx hP
 
-theorem encCalls_closed {B : Nat} {P : World → Prop} (hc : EncClosed B P) (p : Params) (hp : p.Valid)
+theorem encCalls_closed {B : Nat} {P : World → List Backref → Prop} (hc : EncClosed B P) (p : Params) (hp : p.Valid)
     (hB : max 1 (max p.maxInit p.maxSub) ≤ B) (i : Nat) (calls : List Call) :
-    ∀ (r r' : Run) (input : List UInt8) (acc : List Emit), RunInv p i r input acc → P r.w →
-      encCalls p i r calls = some r' → P r'.w := by
+    ∀ (r r' : Run) (input : List UInt8) (acc : List Emit), RunInv p i r input acc → P r.w r.e.toks →
+      encCalls p i r calls = some r' → P r'.w r'.e.toks := by
   induction calls with
   | nil =>
     intro r r' input acc _ hP h
@@ -390,12 +392,12 @@ theorem srcOk_of_no_borrow {w : World} {src : Slice} {es : List Emit}
   fun e he hb => (h e he hb).elim
 
 /-- `Encoder::new` and any calls: `P` holds between calls. -/
-theorem encPrefix_closed {B : Nat} {P : World → Prop} (hc : EncClosed B P) (p : Params) (hp : p.Valid)
+theorem encPrefix_closed {B : Nat} {P : World → List Backref → Prop} (hc : EncClosed B P) (p : Params) (hp : p.Valid)
     (hB : max 1 (max p.maxInit p.maxSub) ≤ B) (pol : Policy) (tun : Tuning) (calls : List Call) (r : Run)
-    (hP : P (World.fresh pol tun)) (h : encPrefix p pol tun calls = some r) : P r.w := by
+    (hP : P (World.fresh pol tun) []) (h : encPrefix p pol tun calls = some r) : P r.w r.e.toks := by
   obtain ⟨w1, e1, k1, k2, _, _⟩ := encInit_sim p pol tun
   simp only [encPrefix, k1] at h
-  have hP1 : P w1 := by
+  have hP1 : P w1 e1.toks := by
     have hk := k1
     simp only [encInit] at hk
     cases h0 : applyStep (World.fresh pol tun) 0 [] (Enc.init p 0).2 ⟨.ext 0, 0, 0⟩ with
@@ -404,7 +406,7 @@ theorem encPrefix_closed {B : Nat} {P : World → Prop} (hc : EncClosed B P) (p 
       obtain ⟨wa, toksa⟩ := x
       rw [h0] at hk
       simp only [Option.some.injEq, Prod.mk.injEq] at hk
-      obtain ⟨rfl, _⟩ := hk
+      obtain ⟨rfl, rfl⟩ := hk
       refine applyStep_closed hc 0 _ _ _ _ _ _ (srcOk_of_no_borrow ?_)
         (fun e he => (init_small p e he).mono (by omega)) h0 hP
       intro e he hb
@@ -412,9 +414,10 @@ theorem encPrefix_closed {B : Nat} {P : World → Prop} (hc : EncClosed B P) (p 
   exact encCalls_closed hc p hp hB 0 calls _ r [] _ k2 hP1 h
 
 /-- … and `finish`. -/
-theorem encRun_closed {B : Nat} {P : World → Prop} (hc : EncClosed B P) (p : Params) (hp : p.Valid)
+theorem encRun_closed {B : Nat} {P : World → List Backref → Prop} (hc : EncClosed B P) (p : Params) (hp : p.Valid)
     (hB : max 1 (max p.maxInit p.maxSub) ≤ B) (pol : Policy) (tun : Tuning) (calls : List Call) (w' : World)
-    (dr : List UInt8) (hP : P (World.fresh pol tun)) (h : encRun p pol tun calls = some (w', dr)) : P w' := by
+    (dr : List UInt8) (hP : P (World.fresh pol tun) []) (h : encRun p pol tun calls = some (w', dr)) :
+    ∃ toks, P w' toks := by
   rw [encRun_eq] at h
   cases h1 : encPrefix p pol tun calls with
   | none => rw [h1] at h; cases h
@@ -423,8 +426,8 @@ theorem encRun_closed {B : Nat} {P : World → Prop} (hc : EncClosed B P) (p : P
     simp only [encFinish, Option.map_eq_some_iff, Prod.mk.injEq] at h
     obtain ⟨wf, ⟨x, hx, rfl⟩, rfl, _⟩ := h
     have hPr := encPrefix_closed hc p hp hB pol tun calls r hP h1
-    exact applyStep_closed hc 0 _ _ _ _ _ _ (srcOk_of_no_borrow (finish_no_borrow p _))
-      (fun e he => (finish_small p _ e he).mono (by omega)) hx hPr
+    exact ⟨x.2, applyStep_closed hc 0 _ _ _ _ _ _ (srcOk_of_no_borrow (finish_no_borrow p _))
+      (fun e he => (finish_small p _ e he).mono (by omega)) hx hPr⟩
 
 /-! ### `Good` along the encoder run -/
 
@@ -434,7 +437,7 @@ theorem srcOk_bounds {w : World} {src : Slice} {bs : List UInt8} (h : SrcOk w sr
   refine ⟨b, hb, ?_⟩
   rw [h1]; simp; omega
 
-theorem good_closed (B : Nat) : EncClosed B Good where
+theorem good_closed (B : Nat) : EncClosed B (fun w _ => Good w) where
   emit := by
     intro w w' i toks toks' e src hsrc _ h hg
     obtain ⟨op, m⟩ := e
@@ -472,12 +475,12 @@ theorem good_closed (B : Nat) : EncClosed B Good where
         simp only [Option.map_eq_some_iff, Prod.mk.injEq] at h
         obtain ⟨w1, h1, rfl, _⟩ := h
         exact hg.backfill h1
-  lend := fun w d hg => hg.step (op := .lend d) rfl
+  lend := fun w _ d hg => hg.step (op := .lend d) rfl
   consume := by
-    intro w w' i k n h hg
+    intro w w' _ i k n h hg
     exact hg.step (op := .consume i k) (by simp [World.step, h])
   advance := by
-    intro w w' i k n h hg
+    intro w w' _ i k n h hg
     exact hg.step (op := .advance i k) (by simp [World.step, h])
 
 theorem good_fresh (pol : Policy) (tun : Tuning) : Good (World.fresh pol tun) :=
@@ -616,7 +619,7 @@ theorem consume_quiet {w w' : World} {i count k : Nat} (h : w.consume i count = 
 
 /-- Every step of an encoder run with valid parameters (so every request is at most
 `max maxInit maxSub ≤ 64008 < 2^20`) preserves `CapGood`. -/
-theorem capGood_closed : EncClosed 64008 CapGood where
+theorem capGood_closed : EncClosed 64008 (fun w _ => CapGood w) where
   emit := by
     intro w w' i toks toks' e src hsrc hsm h hg
     obtain ⟨op, m⟩ := e
@@ -657,13 +660,13 @@ theorem capGood_closed : EncClosed 64008 CapGood where
         obtain ⟨w1, h1, rfl, _⟩ := h
         refine hg.quiet (backfill_quiet h1) (hg.2.1.backfill h1) ?_
         obtain ⟨v, hv, ⟨_, _, rfl⟩ | ⟨key, info, target, k, _, _, _, _, _, _, _, rfl⟩⟩ := backfill_spec h1 <;> rfl
-  lend := fun w d hg => hg.quiet (quiet_with_exts w _) (hg.2.1.with_exts [d]) rfl
+  lend := fun w _ d hg => hg.quiet (quiet_with_exts w _) (hg.2.1.with_exts [d]) rfl
   consume := by
-    intro w w' i k n h hg
+    intro w w' _ i k n h hg
     refine hg.quiet (consume_quiet h) (hg.2.1.consume h) ?_
     obtain ⟨v, n, v', hv, _, hc, rfl⟩ := consume_spec h; rfl
   advance := by
-    intro w w' i k n h hg
+    intro w w' _ i k n h hg
     refine hg.quiet (advance_quiet h) (hg.2.1.advance h) ?_
     obtain ⟨v, n, v', k, hv, _, hc, rfl⟩ := advance_spec h; rfl
 
@@ -692,5 +695,105 @@ theorem enc_slices_in_cap (p : Params) (hp : p.Valid) (pol : Policy) (calls : Li
   have h1 := ha.inCap s c hsl hc
   have h2 := hcap c (hw.hasSlice_lt hsl hc)
   omega
+
+/-! ### The encoder run, literally, as a `WOp` history
+
+The encoder keeps the tokens `register_patch` returned in its own list (`EncW.toks`) and hands them
+back by value; the `WOp` vocabulary keeps them in the world's handle table.  With the table set to the
+encoder's list (`World.wb`), every emit, every lent buffer and every drain is ONE `World.step`. -/
+
+/-- `w`, with `toks` as its handle table, is the world after some `WOp` history from `World.init`. -/
+def Lit (pol : Policy) (tun : Tuning) (w : World) (toks : List Backref) : Prop :=
+  ∃ wops, (World.init pol tun).run wops = some (w.wb toks)
+
+theorem Lit.step {pol : Policy} {tun : Tuning} {w w' : World} {toks toks' : List Backref} {op : WOp}
+    (h : Lit pol tun w toks) (hs : (w.wb toks).step op = some (w'.wb toks')) : Lit pol tun w' toks' := by
+  obtain ⟨wops, hr⟩ := h
+  exact ⟨wops ++ [op], run_append_some hr (run_one hs)⟩
+
+theorem lit_closed (pol : Policy) (tun : Tuning) (B : Nat) : EncClosed B (Lit pol tun) where
+  emit := by
+    intro w w' i toks toks' e src hsrc _ h hl
+    obtain ⟨op, m⟩ := e
+    cases op with
+    | append bs =>
+      cases m with
+      | copy =>
+        simp only [applyEmit, Option.map_eq_some_iff, Prod.mk.injEq] at h
+        obtain ⟨w1, h1, rfl, rfl⟩ := h
+        refine hl.step (op := .pushCopy i bs) ?_
+        show (w.wb toks).pushCopy i bs = _
+        rw [pushCopy_wb, h1]; rfl
+      | borrow =>
+        simp only [applyEmit, Option.map_eq_some_iff, Prod.mk.injEq] at h
+        obtain ⟨w1, h1, rfl, rfl⟩ := h
+        obtain ⟨b, hb, hle⟩ := srcOk_bounds hsrc
+        obtain ⟨reg, off, len⟩ := src
+        simp only at hb hle h1
+        subst hb
+        refine hl.step (op := .pushAt i b off bs.length) ?_
+        have hle' : off + bs.length ≤ ((w.wb toks).exts.getD b []).length := hle
+        simp only [World.step, if_pos hle']
+        rw [push_wb, h1]; rfl
+    | register k =>
+      simp only [applyEmit] at h
+      cases h1 : w.registerPatch i (List.replicate k 0) with
+      | none => rw [h1] at h; cases h
+      | some x =>
+        obtain ⟨w1, b⟩ := x
+        rw [h1] at h
+        simp only [Option.some.injEq, Prod.mk.injEq] at h
+        obtain ⟨rfl, rfl⟩ := h
+        refine hl.step (op := .register i (List.replicate k 0)) ?_
+        simp only [World.step]
+        rw [registerPatch_wb, h1]
+        rfl
+    | fill id bs =>
+      simp only [applyEmit] at h
+      cases h0 : toks[id]? with
+      | none => rw [h0] at h; cases h
+      | some b =>
+        rw [h0] at h
+        simp only [Option.map_eq_some_iff, Prod.mk.injEq] at h
+        obtain ⟨w1, h1, rfl, rfl⟩ := h
+        have hid : id < toks.length := by
+          rcases Nat.lt_or_ge id toks.length with h2 | h2
+          · exact h2
+          · rw [List.getElem?_eq_none h2] at h0; cases h0
+        have hget : toks.getD id none = b := by
+          rw [List.getD_eq_getElem?_getD, h0]; rfl
+        refine hl.step (op := .backfill i id bs) ?_
+        simp only [World.step, wb_brefs, if_pos hid, hget]
+        rw [backfill_wb, h1]; rfl
+  lend := by
+    intro w toks d hl
+    exact hl.step (op := .lend d) rfl
+  consume := by
+    intro w w' toks i k n h hl
+    refine hl.step (op := .consume i k) ?_
+    simp only [World.step]
+    rw [consume_wb, h]; rfl
+  advance := by
+    intro w w' toks i k n h hl
+    refine hl.step (op := .advance i k) ?_
+    simp only [World.step]
+    rw [advance_wb, h]; rfl
+
+theorem lit_fresh (pol : Policy) (tun : Tuning) : Lit pol tun (World.fresh pol tun) [] :=
+  ⟨[.new], rfl⟩
+
+/-- Between calls of ANY encoder run: the world, with the encoder's token list as handle table, is
+literally the world after a `WOp` history from `World.init` — so every theorem about `Reachable`
+worlds (C05, C10, C20) applies to it as stated. -/
+theorem enc_prefix_is_wrun (p : Params) (hp : p.Valid) (pol : Policy) (tun : Tuning) (calls : List Call) (r : Run)
+    (h : encPrefix p pol tun calls = some r) :
+    ∃ wops, (World.init pol tun).run wops = some (r.w.wb r.e.toks) :=
+  encPrefix_closed (lit_closed pol tun _) p hp (Nat.le_refl _) pol tun calls r (lit_fresh pol tun) h
+
+/-- … and after `finish`. -/
+theorem enc_run_is_wrun (p : Params) (hp : p.Valid) (pol : Policy) (tun : Tuning) (calls : List Call) (w' : World)
+    (dr : List UInt8) (h : encRun p pol tun calls = some (w', dr)) :
+    ∃ toks wops, (World.init pol tun).run wops = some (w'.wb toks) :=
+  encRun_closed (lit_closed pol tun _) p hp (Nat.le_refl _) pol tun calls w' dr (lit_fresh pol tun) h
 
 end Woodpile.EncWorld
